@@ -204,7 +204,10 @@ def reservoir_bfs(acc, tier, i, n):
 
 # ---- (b) counting ---------------------------------------------------------------------------------
 
-ROUTES = ['ok', 'redir', 'raise403', 'ret404', 'boom', 'nb', 'catch', 'nf', 'mna', 'reroute', 'raise422', 'inner-ok']
+ROUTES = ['ok', 'redir', 'raise403', 'ret404', 'boom', 'nb', 'catch', 'nf', 'mna', 'reroute', 'raise422', 'inner-ok',
+          'parse-ok', 'parse-bad']
+# parse-ok / parse-bad: one route that answers 200 or fails with ValueError depending on the path; the failing request
+# asks for a profile (?_prof=1; SimpleProfileMiddleware sits in front of StatsMiddleware)
 # raise422: an HTTP error raised with an explicit code= ; inner-ok: a route of an embedded application that brought
 # its own StatsMiddleware instance (merged away: the serving application's instance counts)
 STEPS = ROUTES + ['read', 'reset', 'other-app', 'other-reset', 'swap-handler', 'late-add', 'read-html', 'reset-html']
@@ -253,8 +256,12 @@ class StatsWorld(object):
             from clastic.errors import BadRequest
             raise BadRequest('unprocessable', code=422)
         inner = Application([('/ok', ok)], middlewares=[StatsMiddleware()])
-        mws = [StatsMiddleware()]
-        self.app = Application([('/raise422', raise422), ('/inner', inner),
+        from clastic.middleware import SimpleProfileMiddleware
+        mws = [SimpleProfileMiddleware(), StatsMiddleware()]
+
+        def parse(v):
+            return Response('n=%d' % int(v))
+        self.app = Application([('/raise422', raise422), ('/inner', inner), ('/parse/<v>', parse),
                                 ('/ok', ok), ('/redir', redir), ('/raise403', raise403), ('/ret404', ret404),
                                 ('/boom', boom), ('/nb', nb), ('/reroute', reroute), ('/stats', create_stats_app()),
                                 ('/<x>', catch), POST('/only/post', ok)], middlewares=mws)
@@ -285,8 +292,10 @@ class StatsWorld(object):
                 'reroute': ('/reroute', 'GET', 200, [('/reroute', 'RerouteWSGI')]),
                 'raise422': ('/raise422', 'GET', 422, [('/raise422', '422')]),
                 'inner-ok': ('/inner/ok', 'GET', 200, [('/inner/ok', '200')]),
+                'parse-ok': ('/parse/7', 'GET', 200, [('/parse/<v>', '200')]),
+                'parse-bad': ('/parse/seven', 'GET', 500, [('/parse/<v>', 'ValueError')]),
             }[s]
-            res = wsgi.call(app, path, method)
+            res = wsgi.call(app, path, method, query='_prof=1' if s == 'parse-bad' else '')
             for p, k in counts:
                 self.count(p, k)
             if res.raised is not None:
